@@ -190,7 +190,6 @@ class AsyncSocket(base_socket.BaseSocket):
                     return
                 decoded_pkt = packet.Packet(encoded_packet=pkt)
                 if decoded_pkt.packet_type != packet.UPGRADE:
-                    self.upgraded = False
                     self.server.logger.info(
                         ('%s: Failed websocket upgrade, expected UPGRADE '
                          'packet, received %s instead.'),
